@@ -81,8 +81,9 @@ Cwd0 == {0}
 OrdersFirst == { << 1 >> }
 
 (* ---- C16: batches -------------------------------------------------------------------- *)
-A16(G) == ImpA(G, {1}, {"top", "nested"}) \cup { Out(1, "ok"), Out(4, "bad"), RtErr, TyErr, Lit }
-Bodies16_2x2 == [1..2 -> SeqsUpTo(A16({1, 2}), 2)]
+A16n(G) == ImpA(G, {1}, {"top", "nested"}) \cup { Out(1, "ok"), Out(4, "bad"), RtErr, TyErr }
+A16(G) == A16n(G) \cup { Lit }
+Bodies16_2x2 == [1..2 -> SeqsUpTo(A16n({1, 2}), 2)]
 Bodies16_3x1 == [1..3 -> SeqsUpTo(A16({1, 2, 3}), 1)]
 Bodies16_3mix == { [f \in 1..3 |-> IF f = 1 THEN b1 ELSE IF f = 2 THEN b2 ELSE b3] :
                      b1 \in SeqsUpTo(A16({2, 3}), 2), b2 \in SeqsUpTo(A16({3}), 2), b3 \in SeqsUpTo({ Out(1, "ok"), RtErr, Lit }, 1) }
